@@ -590,6 +590,10 @@ MUTANTS = [
                     }
 
                     // Some unexpected message.'''),
+    dict(id="c11-stray-message-in-copy-mode", prop="C11", file="src/client.rs", expect="C11-R9",
+         what="D29 again: a Query is forwarded while the server is in COPY mode",
+         old='''                if server.in_copy_mode() && !matches!(code, 'd' | 'c' | 'f' | 'H') {''',
+         new='''                if server.in_copy_mode() && matches!(code, 'X') {'''),
     # ------------------------------------------------------------------ C12
     dict(id="c12-raw-value", prop="C12", file="src/server.rs", expect="C12-R2",
          what="value interpolated without escaping again",
